@@ -28,6 +28,8 @@ def build(tier, seed):
         "adbyxRtcRb", "adbyxctRb", "adctbyxb", "adbcyxRb", "adxRctRbya",     # dup: reloads through one handle, use through the other
         "adbyxcRtcQa", "adcQtcRab", "adxDbcQb", "adEacRa", "abx",
         "artcra", "axctRctRa", "actaxxa",
+        "adbyxcRQb", "adcRQba", "adbyxcQRa",                                   # reload_now through both handles back to back
+        "agcRa", "adhcQtcRab", "agxcRga",                                       # keyed lookups that may match nothing
     ]
     if not quick:
         hist += ["adbyxRcRb", "adRcRbyxa", "adbxyRtcRtcRba", "adcRcRcRb", "adtctctb", "adbyxQtcQa", "adbcxyqtca", "acxtcatcxa",
